@@ -8,6 +8,9 @@ package brutal
 //   kind "loop"  : a simulated QUIC send loop on a virtual clock generated here from the case's seed
 //                  (send when CanSend && HasPacingBudget, otherwise sleep until TimeUntilSend;
 //                  ack/loss batches, idle gaps, datagram-size and RTT changes in between).
+// Every released packet carries OnPacketSent's isRetransmittable flag (step field "nr" = not
+// ack-eliciting); the loop mixes such packets in any proportion.  They pass the same pacing gate,
+// do not count as bytes in flight, and the rate verdict counts every released byte.
 // After every call it records Budget / TimeUntilSend / HasPacingBudget / GetCongestionWindow /
 // CanSend and math.Float64bits(ackRate) for the comparison with the Coq model, and evaluates the
 // property's own predicate on the implementation alone ("ok"/"why").
@@ -47,6 +50,7 @@ type c11Step struct {
 	A    int    `json:"a"`
 	L    int    `json:"l"`
 	S    int64  `json:"s"`
+	Nr   bool   `json:"nr"`  // sent: the packet is NOT ack-eliciting (OnPacketSent's isRetransmittable = false)
 	Now  int64  `json:"now"` // nop: the new virtual time; otherwise filled in (time of the queries)
 	RTT  int64  `json:"rtt"` // rtt: the new SmoothedRTT; otherwise filled in
 	// observations
@@ -80,6 +84,8 @@ type c11Loop struct {
 	MaxGap int64   `json:"maxgap"` // longest idle gap (ns)
 	Drain  bool    `json:"drain"`  // start with one send of (almost) the whole initial burst
 	Batch  int64   `json:"batch"`  // >1: a send may aggregate up to Batch datagrams (never more than the budget)
+	NrP    float64 `json:"nrp"`    // share of released packets that are not ack-eliciting (isRetransmittable=false), 0 .. 1
+	NrSz   int     `json:"nrsz"`   // their sizes: 0 like the others, 1 uniform 1..datagram size, 2 half of them ACK-sized (20..80 bytes)
 }
 
 type c11Case struct {
@@ -153,7 +159,7 @@ func (r *c11Run) apply(st c11Step) c11Step {
 		return st
 	case "sent":
 		st.Pre = int64(b.pacer.Budget(monotime.Time(st.T)))
-		b.OnPacketSent(monotime.Time(st.T), 0, 0, congestion.ByteCount(st.Size), true)
+		b.OnPacketSent(monotime.Time(st.T), 0, 0, congestion.ByteCount(st.Size), !st.Nr)
 		r.now = st.T
 	case "ev":
 		st.Pan, _ = vCatch(func() {
@@ -242,7 +248,10 @@ func c11Verdict(c c11Case, steps []c11Step) (bool, string, map[string]int) {
 	timeOK := true // send/query times positive and non-decreasing
 	var clock int64
 	disciplined := true
-	type snd struct{ t, size int64 }
+	type snd struct {
+		t, size int64
+		nr      bool
+	}
 	var sends []snd
 	for i, st := range steps {
 		if st.Op == "rtt" {
@@ -266,9 +275,12 @@ func c11Verdict(c c11Case, steps []c11Step) (bool, string, map[string]int) {
 				disciplined = false
 				stats["undisciplined-send"]++
 			}
-			sends = append(sends, snd{st.T, st.Size})
+			sends = append(sends, snd{st.T, st.Size, st.Nr})
 			last = st.T
 			stats["sends"]++
+			if st.Nr {
+				stats["nr-sends"]++
+			}
 		case "ev":
 			if st.Pan {
 				stats["event-panic"]++
@@ -358,6 +370,10 @@ func c11Verdict(c c11Case, steps []c11Step) (bool, string, map[string]int) {
 		}
 	}
 	// --- rate conformance: bytes released in [t_i, t_j] <= burst + (rate/0.8) * (t_j - t_i)
+	// Every byte the sender let through its pacing gate counts, ack-eliciting or not.  The clause is
+	// evaluated whatever the per-step clauses found; when it fails it leads the verdict.
+	stepOK, stepWhy := ok, why
+	ok, why = true, ""
 	if inRange && timeOK && disciplined && maxMds <= 10240 && len(sends) > 0 {
 		burst := int64(c11Accrual(B, 4000000))
 		if 10*maxMds > burst {
@@ -365,16 +381,22 @@ func c11Verdict(c c11Case, steps []c11Step) (bool, string, map[string]int) {
 		}
 		stats["rate-windows"] = len(sends) * (len(sends) + 1) / 2
 		for i := range sends {
-			var sum int64
+			var sum, nrSum int64
+			nrCnt := 0
 			for j := i; j < len(sends); j++ {
 				sum += sends[j].size
+				if sends[j].nr {
+					nrSum += sends[j].size
+					nrCnt++
+				}
 				dt := uint64(sends[j].t - sends[i].t)
 				if hi, lo := bits.Mul64(B, dt); hi != 0 || lo >= 1<<63 {
 					break // outside the property's range
 				}
 				bound := burst + int64(c11Accrual(B, dt))
 				if sum > bound {
-					fail(-1, fmt.Sprintf("sends %d..%d release %d bytes in %d ns; bound burst %d + rate/0.8 x interval = %d", i, j, sum, dt, burst, bound))
+					fail(-1, fmt.Sprintf("sends %d..%d release %d bytes in %d ns (%d packets / %d bytes of them not ack-eliciting); bound burst %d + rate/0.8 x interval = %d",
+						i, j, sum, dt, nrCnt, nrSum, burst, bound))
 					break
 				}
 			}
@@ -382,6 +404,12 @@ func c11Verdict(c c11Case, steps []c11Step) (bool, string, map[string]int) {
 				break
 			}
 		}
+	}
+	switch {
+	case ok:
+		ok, why = stepOK, stepWhy
+	case !stepOK:
+		why += " | earlier: " + stepWhy
 	}
 	return ok, why, stats
 }
@@ -422,12 +450,14 @@ func c11LoopRun(c c11Case) *c11Run {
 		}
 		r.apply(c11Step{Op: "ev", T: now, A: a, L: l})
 	}
+	// is the next released packet not ack-eliciting?  (no draw when the class is off: older cases replay unchanged)
+	nextNr := func() bool { return lp.NrP > 0 && rng.Float64() < lp.NrP }
 	if lp.Drain {
 		size := int64(r.b.pacer.Budget(monotime.Time(now))) - rng.Int63n(2*mds)
 		if size < 0 {
 			size = 0
 		}
-		r.apply(c11Step{Op: "sent", T: now, Size: size})
+		r.apply(c11Step{Op: "sent", T: now, Size: size, Nr: nextNr()})
 	}
 	for it := 0; it < lp.N; it++ {
 		x := rng.Float64()
@@ -464,9 +494,21 @@ func c11LoopRun(c c11Case) *c11Run {
 						size = bud
 					}
 				}
-				infl += size
-				pending = append(pending, size)
-				r.apply(c11Step{Op: "sent", T: now, Size: size})
+				nr := nextNr()
+				if nr {
+					switch lp.NrSz {
+					case 1:
+						size = 1 + rng.Int63n(mds)
+					case 2:
+						if rng.Float64() < 0.5 {
+							size = 20 + rng.Int63n(61)
+						}
+					}
+				} else { // only ack-eliciting packets are bytes in flight
+					infl += size
+					pending = append(pending, size)
+				}
+				r.apply(c11Step{Op: "sent", T: now, Size: size, Nr: nr})
 				now += rng.Int63n(20000)
 			case !hpb:
 				var tus int64
